@@ -2696,6 +2696,15 @@ __GMP_DECLSPEC void mpz_out_raw_m(mpir_out_ptr, mpz_srcptr);
    limbs to increase the probability of being exact, but that doesn't seem
    worth bothering with.  */
 
+/* chars_per_bit_exactly is log(2)/log(base) given to 16 decimals, which for
+   most bases is a little below the true value, and the product with the bit
+   count is rounded too.  floor(bits*chars_per_bit_exactly)+1 was therefore one
+   too SMALL for some operands just above a power of the base (58^3700209 in
+   base 58, 10^59632978 in base 10), which the callers that size a buffer from
+   it cannot make up for.  Scaled by 1+2^-48 the product is an upper bound for
+   every bit count below 2^45, and the result is still exact or one too big.  */
+#define MP_BASES_CHARS_PER_BIT_ROUNDUP  (1.0 + 1.0 / 281474976710656.0)
+
 #define MPN_SIZEINBASE(result, ptr, size, base)                         \
   do {                                                                  \
     int       __lb_base, __cnt;                                         \
@@ -2721,7 +2730,8 @@ __GMP_DECLSPEC void mpz_out_raw_m(mpir_out_ptr, mpz_srcptr);
           }                                                             \
         else                                                            \
           (result) = (size_t)                                           \
-            (__totbits * mp_bases[base].chars_per_bit_exactly) + 1;     \
+            (__totbits * mp_bases[base].chars_per_bit_exactly           \
+             * MP_BASES_CHARS_PER_BIT_ROUNDUP) + 1;                     \
       }                                                                 \
   } while (0)
 
